@@ -101,7 +101,51 @@ def _run_zero(case):
     return [("zero numerator mean:" + f, g, w) for f, g, w in meanx.compare_result(res, ref, skip_rel_ci=True)]
 
 
+def _offset_case(seed, backend):
+    """numerator and denominator far from zero relative to their spread (totals per host: ~2e10 bytes, ~3e7 packets; all
+    values are integers exactly representable in doubles), on a given backend; reference = the test on the linearised rows
+    computed in exact rationals"""
+    import random
+    import backends as B
+    import tea_tasting as tt
+    rng = random.Random(seed)
+    n = rng.choice([40, 120])
+    variant = [i % 2 for i in range(n)]
+    dp = [rng.randint(-20, 20) for _ in range(n)]
+    packets = [30_000_000 + d for d in dp]
+    bytes_ = [20_000_000_000 + 667 * d + rng.randint(-50, 50) + 12 * v for d, v in zip(dp, variant)]
+    data = {"variant": variant, "bytes": bytes_, "packets": packets}
+    kw = dict(alternative=rng.choice(meanx.ALTS), equal_var=rng.random() < 0.5, use_t=rng.random() < 0.5, confidence_level=0.9)
+    try:
+        res = tt.RatioOfMeans("bytes", "packets", **kw).analyze(B.make_table(backend, data), 0, 1, "variant")
+    finally:
+        B.cleanup()
+
+    def lin(v):
+        xs = [F(b) for b, w in zip(bytes_, variant) if w == v]
+        ys = [F(p) for p, w in zip(packets, variant) if w == v]
+        mx, my = sum(xs) / len(xs), sum(ys) / len(ys)
+        r = mx / my
+        return [float(r + (a - r * b) / my) for a, b in zip(xs, ys)]
+    ref = meanx.reference_test(lin(0), lin(1), kw["alternative"], kw["equal_var"], kw["use_t"], 0.9)
+    return [(f"offset data on {backend}:" + f, g, w) for f, g, w in meanx.compare_result(res, ref, rtol=1e-5)]
+
+
+def offset_oracle(ctx):
+    import backends as B
+    for backend in B.KINDS:
+        for _ in range(ctx.n(2, 20)):
+            seed = ctx.rng.randint(0, 10**6)
+            bad = _offset_case(seed, backend)
+            ctx.evaluations += 1
+            ctx.count("oracle:offset-ratio:" + backend)
+            if bad:
+                ctx.violations.append({"what": "RatioOfMeans: " + bad[0][0], "detail": str(bad[:4]),
+                                       "input": {"offset_case": True, "seed": seed, "backend": backend}})
+
+
 def oracle(ctx, deep=False):
+    offset_oracle(ctx)
     for i in range(ctx.n(20, 400) * (3 if deep else 1)):
         case = _zero_numerator_case(ctx.rng)
         bad = _run_zero(case)
@@ -126,6 +170,9 @@ def oracle(ctx, deep=False):
 
 
 def replay(ctx, rp):
+    if rp["input"].get("offset_case"):
+        bad = _offset_case(rp["input"]["seed"], rp["input"]["backend"])
+        return {"fails": bool(bad), "failures": [str(b) for b in bad]}
     bad = _run_zero(rp["input"]) if rp["input"].get("zero_numerator_mean") else _run_case(rp["input"])
     return {"fails": bool(bad), "failures": [str(b) for b in bad]}
 
